@@ -25,13 +25,13 @@ theorem slice_returns_the_window (σ : Leaves) (st : Store) (fuel : Nat) (a : Na
     (res : Res) (hwf : t.WF) (htr : t.Truthful σ) (hraw : t.RawSql)
     (h : applyOp st fuel (.u (.slice a b)) t {} = .ok res) :
     sem σ (res.get t) = sliceList a b (sem σ t) :=
-  ((treeBuild_sound σ st fuel).apply _ t res (raw_good σ t hwf htr hraw) h).2.sem_eq
+  ((treeBuild_sound σ st fuel).apply _ t res (raw_good σ t hwf htr hraw) h).2.1.sem_eq
 
 theorem sort_is_applied_on_top (σ : Leaves) (st : Store) (fuel : Nat) (ts : List SortTerm) (t : Rel)
     (res : Res) (hwf : t.WF) (htr : t.Truthful σ) (hraw : t.RawSql)
     (h : applyOp st fuel (.u (.sort ts)) t {} = .ok res) :
     sem σ (res.get t) = isort (lexLe ts) (sem σ t) :=
-  ((treeBuild_sound σ st fuel).apply _ t res (raw_good σ t hwf htr hraw) h).2.sem_eq
+  ((treeBuild_sound σ st fuel).apply _ t res (raw_good σ t hwf htr hraw) h).2.1.sem_eq
 
 theorem binary_refuses_unsliced_sort (st : Store) (fuel : Nat) (op : BOp) (l r : Rel)
     (h : (l.slots.hasSort && !l.slots.hasSlice) = true ∨ (r.slots.hasSort && !r.slots.hasSlice) = true) :
